@@ -123,6 +123,9 @@ class ProtoExporter:
 
         # Create its serialized name
         pmod.name = self.export_module_name(module)
+        # And reserve it right away, so that clashes with the Modules instantiated below are caught too
+        mapping = ModuleMapping(module, pmod)
+        self.modules_by_name[pmod.name] = mapping
 
         # Create its Signal-objects, which include the hdl21.Module's Ports
         for sig in list(module.signals.values()) + list(module.ports.values()):
@@ -146,9 +149,7 @@ class ProtoExporter:
             pmod.literals.append(export_literal(literal))
 
         # Store references to the result, and return it
-        mapping = ModuleMapping(module, pmod)
         self.modules_by_id[id(module)] = mapping
-        self.modules_by_name[pmod.name] = mapping
         self.pkg.modules.append(pmod)
         return pmod
 
